@@ -250,3 +250,82 @@ def lincheck_many(exe, spec, histories, timeout=900):
     rc, out = vcheck.sh([exe] + spec.split(), timeout=timeout, input=text)
     v = [l.strip() for l in out.split("\n") if l.strip()]
     return v[:len(histories)] + ["ERROR no verdict"] * max(0, len(histories) - len(v))
+
+
+# ---------------------------------------------------------------------------------------------------------
+# observable correspondence: histories of the real containers decided by the verified lincheck
+
+def history_of(lines):
+    """'<tid> ev inv <op..>' / '<tid> ev res <r..>' -> lincheck input lines"""
+    h = []
+    for l in lines:
+        t = l.split(" ")
+        if len(t) >= 4 and t[1] == "ev" and t[2] in ("inv", "res"):
+            h.append("%s %s %s" % (t[2], t[0], " ".join(t[3:])))
+    return h
+
+
+def park_sched(rng, nthreads):
+    """one thread acquires the combiner lock and is parked; the others publish their requests and spin; then the
+    combiner runs: its fc_process / combining_pass meets a batch of requests"""
+    a = rng.below(nthreads)
+    s = [a] * (12 + rng.below(5))
+    others = [t for t in range(nthreads) if t != a]
+    for i in range(len(others) - 1, 0, -1):
+        j = rng.below(i + 1); others[i], others[j] = others[j], others[i]
+    for t in others:
+        s += [t] * (13 + rng.below(12))
+    s += [a] * (60 + rng.below(80))
+    for _ in range(2):
+        for t in others:
+            s += [t] * (10 + rng.below(30))
+        s += [a] * (20 + rng.below(60))
+    return s
+
+
+def observable_lincheck(ctx, impl, cases, spec_of, tag, what_notlin, what_crash, timeout=240, nproc=8):
+    """Runs the cases on the real container, decides every finished history with the verified lincheck.
+    Returns stats; reports violations through ctx (one replay per kind)."""
+    lin = build_lincheck(ctx)
+    out = run_par([impl], cases, ctx.work, tag, nproc=nproc, timeout=timeout)
+    logs = conc_check.parse_logs(out)
+    byspec = {}
+    for c in cases:
+        lg = logs.get(c["id"])
+        if lg is None or lg["end"] != "finished":
+            continue
+        byspec.setdefault(spec_of(c), []).append((c, history_of(lg["lines"]), lg))
+    stats = {"cases": len(cases), "finished": 0, "ok": 0, "notlin": 0, "other": 0, "collided_cases": 0, "batched_cases": 0,
+             "distinct_histories": 0, "distinct_nontrivial": 0, "ops": 0, "combs": 0, "collided": 0, "unfinished": 0, "by_spec": {}, "samples": []}
+    seen = set(); seen_nt = set()
+    for spec, items in sorted(byspec.items()):
+        verdicts = lincheck_many(lin, spec, [h for (_, h, _) in items], timeout=timeout)
+        stats["by_spec"][spec] = len(items)
+        for (c, h, lg), v in zip(items, verdicts):
+            stats["finished"] += 1
+            mon = monitor_extra(lg["extra"])
+            stats["ops"] += mon.get("ops", 0); stats["combs"] += mon.get("combs", 0); stats["collided"] += mon.get("collided", 0)
+            key = hash((spec, tuple(h)))
+            seen.add(key)
+            nt = mon.get("collided", 0) > 0 or mon.get("ops", 0) > mon.get("combs", 0) + c.get("cfg", [0, 0, 0, 0])[3]
+            if mon.get("collided", 0) > 0:
+                stats["collided_cases"] += 1
+            if nt:
+                stats["batched_cases"] += 1
+                seen_nt.add(key)
+                if len(stats["samples"]) < 2:
+                    stats["samples"].append({"case": c, "history": h, "verdict": v})
+            if v == "OK":
+                stats["ok"] += 1
+            elif v == "NOTLIN":
+                stats["notlin"] += 1
+                ctx.violation(what_notlin, {"case": c, "spec": spec, "history": h, "verdict": v, "monitor": lg["extra"]})
+            else:
+                stats["other"] += 1
+                ctx.violation(what_notlin + " (history rejected: %s)" % v.split(" ")[0], {"case": c, "spec": spec, "history": h, "verdict": v})
+    stats["distinct_histories"] = len(seen); stats["distinct_nontrivial"] = len(seen_nt)
+    unfinished = [c for c in cases if c["id"] not in logs or logs[c["id"]]["end"] != "finished"]
+    stats["unfinished"] = len(unfinished)
+    for c in first_unfinished(cases, logs, nproc=nproc):
+        ctx.violation(what_crash, {"case": c, "output_tail": out[-1500:]})
+    return stats
